@@ -1,6 +1,7 @@
-(* Props/C18Known.v — refutations: for each flag claimed `true` in Actual/PlacementActual.v a concrete rule set
-   and file on which the faithful model differs from the specification, and agrees with it once that one
-   flag is switched off (closed by vm_compute).  The tables are re.search(pattern, path, IGNORECASE) for the
+(* Props/C18Known.v — refutations: for each finding still listed as known a concrete rule set and file on which
+   the faithful model differs from the specification, and agrees with it once that one flag is switched off
+   (closed by vm_compute); for each finding repaired in /repo a regression statement: the old witness now
+   meets the specification under the faithful model.  The tables are re.search(pattern, path, IGNORECASE) for the
    strings involved; the same inputs are in corpus/C18 and are replayed on the implementation on every run,
    where the harness tabulates the real engine. *)
 From Coq Require Import ZArith.
@@ -27,12 +28,11 @@ Definition w2_cfg : config := {|
   c_dirs := Some [("src", {| r_allow := Some [AStr ".*\.py$"]; r_deny := None |})];
   c_gdeny := None; c_gpat := None |}.
 Definition w2_mt := [(".*\.py$", "src2/x.txt", false)].
-Theorem C18_prefix_without_separator_refuted :
+(* fixed by a23cd20: src2/x.txt is no longer judged by the rule of src *)
+Theorem C18_prefix_without_separator_fixed :
   forget (run all_valid (tbl_matches w2_mt) placement_actual w2_cfg (absf "src2/x.txt"))
-    <> spec all_valid (tbl_matches w2_mt) w2_cfg (absf "src2/x.txt")
-  /\ forget (run all_valid (tbl_matches w2_mt) (with_flag 1 placement_actual) w2_cfg (absf "src2/x.txt"))
     = spec all_valid (tbl_matches w2_mt) w2_cfg (absf "src2/x.txt").
-Proof. split; vm_compute; [discriminate|reflexivity]. Qed.
+Proof. vm_compute. reflexivity. Qed.
 
 (* sibling keys sharing a string prefix: first listed wins although only one contains the file *)
 Definition w2b_cfg : config := {|
@@ -40,12 +40,11 @@ Definition w2b_cfg : config := {|
                   ("src", {| r_allow := None; r_deny := None |})];
   c_gdeny := None; c_gpat := None |}.
 Definition w2b_mt := [("a", "src/a.py", true)].
-Theorem C18_prefix_tie_first_wins_refuted :
+(* fixed by a23cd20: only src contains src/a.py, sr does not compete *)
+Theorem C18_prefix_tie_first_wins_fixed :
   forget (run all_valid (tbl_matches w2b_mt) placement_actual w2b_cfg (absf "src/a.py"))
-    <> spec all_valid (tbl_matches w2b_mt) w2b_cfg (absf "src/a.py")
-  /\ forget (run all_valid (tbl_matches w2b_mt) (with_flag 1 placement_actual) w2b_cfg (absf "src/a.py"))
     = spec all_valid (tbl_matches w2b_mt) w2b_cfg (absf "src/a.py").
-Proof. split; vm_compute; [discriminate|reflexivity]. Qed.
+Proof. vm_compute. reflexivity. Qed.
 
 (* run from inside src/, `test_a.py` is judged as a root-level file: the deny rule of src is not applied *)
 Definition w3_cfg : config := {|
@@ -53,24 +52,22 @@ Definition w3_cfg : config := {|
   c_gdeny := None; c_gpat := None |}.
 Definition w3_mt := [("test_", "src/test_a.py", true); ("test_", "test_a.py", true)].
 Definition w3_file : fileq := {| f_cwd := "src"; f_rest := "test_a.py"; f_relative := true |}.
-Theorem C18_path_relative_to_cwd_refuted :
+(* fixed by 12368d4: test_a.py handed over from inside src/ is judged as src/test_a.py *)
+Theorem C18_path_relative_to_cwd_fixed :
   forget (run all_valid (tbl_matches w3_mt) placement_actual w3_cfg w3_file)
-    <> spec all_valid (tbl_matches w3_mt) w3_cfg w3_file
-  /\ forget (run all_valid (tbl_matches w3_mt) (with_flag 2 placement_actual) w3_cfg w3_file)
     = spec all_valid (tbl_matches w3_mt) w3_cfg w3_file.
-Proof. split; vm_compute; [discriminate|reflexivity]. Qed.
+Proof. vm_compute. reflexivity. Qed.
 
 (* the documented allow item {pattern: ...} makes the validator raise TypeError: nothing is reported *)
 Definition w4_cfg : config := {|
   c_dirs := None; c_gdeny := None;
   c_gpat := Some {| r_allow := Some [ADict ".*\.py$"]; r_deny := None |} |}.
 Definition w4_mt := [(".*\.py$", "docs/x.md", false)].
-Theorem C18_allow_dict_unsupported_refuted :
+(* fixed by 423132c: the dict allow item is a pattern; docs/x.md misses it and is reported *)
+Theorem C18_allow_dict_unsupported_fixed :
   forget (run all_valid (tbl_matches w4_mt) placement_actual w4_cfg (absf "docs/x.md"))
-    <> spec all_valid (tbl_matches w4_mt) w4_cfg (absf "docs/x.md")
-  /\ forget (run all_valid (tbl_matches w4_mt) (with_flag 3 placement_actual) w4_cfg (absf "docs/x.md"))
     = spec all_valid (tbl_matches w4_mt) w4_cfg (absf "docs/x.md").
-Proof. split; vm_compute; [discriminate|reflexivity]. Qed.
+Proof. vm_compute. reflexivity. Qed.
 
 (* `lib/` (depth 2 because of the empty last component) ties with `lib/core` and, listed first, judges
    lib/core/x.py although lib/core is the most specific containing directory *)
